@@ -363,7 +363,7 @@ func VX_C09_RedialRetry(args []int) {
 // method section holds arbitrary bytes arrives on a live session: whatever the
 // field parsers do with it (including a panic recovered by the read loop), the
 // session ends up working or cleanly disconnected, nobody stays blocked and
-// another session keeps working. args: field(0 meta, 1 status, 2 method, 3 the message-type byte), n
+// another session keeps working. args: field(0 meta, 1 status, 2 method, 3 the message-type byte, 4 the body-codec byte of a REPLY to a pending call), n
 func VX_C06_SessionFieldBytes(args []int) {
 	field, n := args[0], args[1]
 	p := vxNewPeer()
@@ -382,6 +382,9 @@ func VX_C06_SessionFieldBytes(args []int) {
 	case 3:
 		n = 1
 		frame = vxFrame('A', 1, "/ok", []byte("x")) // message type byte
+	case 4:
+		n = 1 // body codec byte of a REPLY to a pending call with a typed (non-bytes) result
+		frame = nil
 	default:
 		frame = vxFrame(TypeCall, 1, string(ph), []byte("x"))
 	}
@@ -406,6 +409,13 @@ func VX_C06_SessionFieldBytes(args []int) {
 	conn := newVxConn("srv:1", "evil:1")
 	s, st := p.ServeConn(conn)
 	vxAssume(st.OK())
+	var pending CallCmd
+	if field == 4 {
+		var typed int
+		pending = s.AsyncCall("/remote", []byte("q"), &typed, make(chan CallCmd, 1))
+		frame = vxFrame(TypeReply, pending.Output().Seq(), "", []byte("pong"), socket.WithBodyCodec(vxByte("codec")))
+		at = -1
+	}
 	conn.feed(frame)
 	vxWaitIdle()
 	if !s.Health() {
@@ -423,6 +433,9 @@ func VX_C06_SessionFieldBytes(args []int) {
 	conn.end()
 	vxWaitIdle()
 	vxAssert(vxBlockedThreads() == 0, "nobody left blocked once the input is exhausted")
+	if pending != nil {
+		vxAssert(vxDone(pending), "no caller left waiting once the input is exhausted")
+	}
 	c2 := newVxConn("srv:1", "good:2")
 	c2.feed(vxFrame(TypeCall, 3, "/ok", []byte("fine")))
 	s2, st := p.ServeConn(c2)
